@@ -69,8 +69,9 @@ type tcase struct {
 	writers   []hist.Writer
 	expire    bool
 	asyncBG   bool
-	tsChoice  int // index into the timestamp marks
-	tsDelta   int // -1, 0, +1
+	respLevel bool // locks are reported at response level (TiKV's form for in-memory locks)
+	tsChoice  int  // index into the timestamp marks
+	tsDelta   int  // -1, 0, +1
 	maxTS     bool
 	ts2Choice int
 	reads     []read
@@ -85,8 +86,8 @@ func (c *tcase) String() string {
 	for _, r := range c.reads {
 		rs = append(rs, r.String())
 	}
-	return fmt.Sprintf("backend=%v stores=%d splits=%q expire=%v asyncBatchGet=%v ts=mark[%d]%+d max=%v ts2=mark[%d]\n  writers:\n    %s\n  reads: %s",
-		c.backend, c.nStores, c.splits, c.expire, c.asyncBG, c.tsChoice, c.tsDelta, c.maxTS, c.ts2Choice, strings.Join(ws, "\n    "), strings.Join(rs, " ; "))
+	return fmt.Sprintf("backend=%v stores=%d splits=%q expire=%v asyncBatchGet=%v respLevelLocks=%v ts=mark[%d]%+d max=%v ts2=mark[%d]\n  writers:\n    %s\n  reads: %s",
+		c.backend, c.nStores, c.splits, c.expire, c.asyncBG, c.respLevel, c.tsChoice, c.tsDelta, c.maxTS, c.ts2Choice, strings.Join(ws, "\n    "), strings.Join(rs, " ; "))
 }
 
 func gen(t *rapid.T, backend sim.Backend, rec *ev.Recorder) *tcase {
@@ -109,6 +110,7 @@ func gen(t *rapid.T, backend sim.Backend, rec *ev.Recorder) *tcase {
 	c.writers = hist.Gen(t, backend, c.keys, nW, 2)
 	c.expire = rapid.IntRange(0, 3).Draw(t, "expire") != 0
 	c.asyncBG = rapid.Bool().Draw(t, "asyncbatchget")
+	c.respLevel = rapid.Bool().Draw(t, "resplevellocks")
 	c.tsChoice = rapid.IntRange(0, nW).Draw(t, "ts")
 	c.tsDelta = rapid.IntRange(-1, 1).Draw(t, "tsdelta")
 	c.maxTS = c.expire && rapid.IntRange(0, 7).Draw(t, "maxts") == 0
@@ -341,6 +343,7 @@ func run(c *tcase) (o outcome) {
 	for _, k := range c.splits {
 		cl.SplitAt(k)
 	}
+	cl.RespLevelLocks = c.respLevel
 	var failMsg string
 	w := sim.NewWorld(cl, c.keys, func(f string, a ...any) {
 		if failMsg == "" {
@@ -522,7 +525,7 @@ func run(c *tcase) (o outcome) {
 	return
 }
 
-const rule = "an MVCC history is built by 3-7 writer transactions on their own simulated clients (optimistic | pessimistic, on unistore also async commit / 1PC; 1-3 sets / deletes each over 4-8 keys in 1-5 regions, 1 or 3 stores) that end by commit, rollback, client death with the transaction open, or a client crash before / after a drawn request of Commit (leaving prewrite locks, pessimistic locks, committed primaries with unresolved secondaries, rolled-back primaries with orphans), a timestamp mark is taken after each; the reader picks a mark +-1 (or max uint64) as snapshot ts - so later writers' locks are 'after the snapshot' - and runs 3-8 reads twice each: get, batch-get (duplicates, any order, sync | async path), scan and reverse scan (bounds on / off keys and region borders, unbounded, batch size 2-8, key-only), on a shared (warm) or fresh (cold) snapshot, optionally with a region split or leader transfer fired at the i-th RPC of the read; then the shared snapshot is moved to a second ts (SetSnapshotTS) and all reads repeat; locks are expired before reading in 3 of 4 cases; oracle: after recovery the raw MVCC records give truth(ts); every read must equal truth(ts) restricted to its request (exact pairs, exact order, in bounds), errors are allowed only when locks were left unexpired and a non-pessimistic lock with start ts <= snapshot lies in the request; non-trivial = a lock at or below the snapshot was left and a read touched >= 2 regions, or a topology change fired during a read; distinct = case text"
+const rule = "an MVCC history is built by 3-7 writer transactions on their own simulated clients (optimistic | pessimistic, on unistore also async commit / 1PC; 1-3 sets / deletes each over 4-8 keys in 1-5 regions, 1 or 3 stores) that end by commit, rollback, client death with the transaction open, or a client crash before / after a drawn request of Commit (leaving prewrite locks, pessimistic locks, committed primaries with unresolved secondaries, rolled-back primaries with orphans), a timestamp mark is taken after each; the reader picks a mark +-1 (or max uint64) as snapshot ts - so later writers' locks are 'after the snapshot' - and runs 3-8 reads twice each: get, batch-get (duplicates, any order, sync | async path, locks reported per pair | at response level as TiKV does for in-memory locks), scan and reverse scan (bounds on / off keys and region borders, unbounded, batch size 2-8, key-only), on a shared (warm) or fresh (cold) snapshot, optionally with a region split or leader transfer fired at the i-th RPC of the read; then the shared snapshot is moved to a second ts (SetSnapshotTS) and all reads repeat; locks are expired before reading in 3 of 4 cases; oracle: after recovery the raw MVCC records give truth(ts); every read must equal truth(ts) restricted to its request (exact pairs, exact order, in bounds), errors are allowed only when locks were left unexpired and a non-pessimistic lock with start ts <= snapshot lies in the request; non-trivial = a lock at or below the snapshot was left and a read touched >= 2 regions, or a topology change fired during a read; distinct = case text"
 
 func snapshots(t *testing.T, backend sim.Backend) {
 	rec := ev.For(t, "C05", rule)
